@@ -138,6 +138,14 @@ def gen_cases(tier, seed):
         runs = [(iso, comps[0]), (iso, o), (iso, comps[1]), (iso, o)]
         hist.append({"kind": "history", "history_kind": "same_country_all_options_flipped", "runs": [{"iso": i, "opts": copy.deepcopy(x)} for i, x in runs], "share_opts": False,
                      "id": "flipall#%d/%s" % (k, iso)})
+    # one ScenarioRunnerNoTrade object serving every run of the history (an interactive session, run_many_options, a test module's
+    # module-level runner): what a call returns is its own selection and result, whatever the object served before
+    cgood = [p for p in good if p[0] != "WOR"]
+    for k in range(4 if tier == "quick" else 24):
+        runs = rnd.sample(cgood, 3)
+        runs = [runs[0], runs[1], runs[0], runs[2], (runs[1][0], runs[0][1])]
+        hist.append({"kind": "history", "history_kind": "one_runner_object", "runs": [{"iso": i, "opts": copy.deepcopy(o)} for i, o in runs], "share_opts": False, "one_runner": True,
+                     "id": "one_runner#%d" % k})
     isos = workload.all_isos()
     for k in range(4 if tier == "quick" else 24):
         o = rnd.choice(good)[1]
@@ -235,6 +243,11 @@ def run_case(case, tier):
     seq = []
     shared = {}
     state_changes = []
+    one_runner = None
+    if case.get("one_runner"):
+        from src.scenarios.run_model_no_trade import ScenarioRunnerNoTrade
+
+        one_runner = ScenarioRunnerNoTrade()
     for k, run in enumerate(case["runs"]):
         key = json.dumps([run["iso"], sorted((a, str(b)) for a, b in run["opts"].items())])
         if case.get("share_opts"):
@@ -244,7 +257,8 @@ def run_case(case, tier):
             opts_obj = run["opts"]
         before = state_snapshot()
         opts_before = copy.deepcopy(opts_obj)
-        tr = capture.run_pipeline({"kind": "pipeline", "iso": run["iso"], "opts": opts_obj, "tag": "h%d" % k}, share_opts=bool(case.get("share_opts")))
+        tr = capture.run_pipeline({"kind": "pipeline", "iso": run["iso"], "opts": opts_obj, "tag": "h%d" % k}, share_opts=bool(case.get("share_opts")),
+                                  runner=one_runner if run["iso"] != "WOR" else None)
         after = state_snapshot()
         if opts_obj != opts_before:
             viol.append({"mech": "caller_options_modified_by_run", "msg": "history %s run %d (%s): the option dictionary passed in was modified" % (case["id"], k, run["iso"]),
